@@ -238,8 +238,10 @@ class RawMeshData:
                         (v3,v4,v8,v7)
                     ]
                 for face in faces_C:
+                    iF = face_id.get(utils.keyify(face), None)
+                    if iF is None: continue # face absent (faces not completed from cells): no incidence to record
                     if nce==0:
-                        self.cell_faces._elem.append(face_id[utils.keyify(face)])
+                        self.cell_faces._elem.append(iF)
                     if nca==0:
                         self.cell_faces._adj.append(iC)
 
